@@ -399,7 +399,7 @@ func TestC16(t *testing.T) {
 				return a, b
 			}
 			live := w.live()
-			kind := c.Weighted("event", 5, 4, 2, 2, 3, 3, 2, 2, 3, 3, 3, 3, 2)
+			kind := c.Weighted("event", 5, 4, 2, 2, 3, 3, 2, 2, 3, 3, 3, 3, 2, 3)
 			if kind == 11 && len(live) == 0 {
 				kind = 0
 			}
@@ -553,6 +553,62 @@ func TestC16(t *testing.T) {
 				cc.closed[side] = true
 				w.closeEnds(cc, side == 0, side == 1)
 				c.Class("slow-close-with-reconnect")
+			case 13: // a link setup during which one side closes that very link through its manager, at a generated point of the setup
+				a, b := pair()
+				side := c.Pick("sched.side", 2)
+				local, remote := a, b
+				if side == 1 {
+					local, remote = b, a
+				}
+				nd := w.nodes[local]
+				skip := c.Int("sched.call", 0, 40)
+				w.log("n%d dials n%d; n%d closes its link to n%d at call %d its modules make during the setup", a, b, local, remote, skip)
+				nd.Gate.Arm(skip)
+				stop := make(chan struct{})
+				helper := make(chan string, 1)
+				go func() {
+					point := ""
+					for held := false; !held; {
+						held = nd.Gate.WaitReached(5 * time.Millisecond)
+						select {
+						case <-stop:
+							nd.Gate.Release()
+							helper <- point
+							return
+						default:
+						}
+					}
+					point = nd.Gate.Point
+					closed := make(chan struct{})
+					go func() { defer close(closed); nd.Peer.CloseLink(w.nodes[remote].IP()) }()
+					select {
+					case <-closed:
+					case <-time.After(100 * time.Millisecond): // waits for a lock the held call keeps: fine
+					}
+					nd.Gate.Release()
+					<-closed
+					helper <- point
+				}()
+				nc := &c16Conn{conn: wire.Dial(w.nodes[a], w.nodes[b]), a: a, b: b}
+				w.conns = append(w.conns, nc)
+				w.drive([]*c16Conn{nc}, true, -1)
+				close(stop)
+				point := <-helper
+				if point != "" {
+					w.log("  held at %s while the link was closed", point)
+					c.Class("local-close-at-a-schedule-point-of-the-setup")
+					// The close (if it found a link) ends the connection for both ends.
+					time.Sleep(2 * time.Millisecond)
+					for i, e := range []*wire.End{nc.conn.A, nc.conn.B} {
+						if e.Link != nil && e.Link.IsClosing() {
+							w.waitClosed(e)
+							nc.closed[i] = true
+						}
+					}
+					if nc.closed[0] != nc.closed[1] {
+						w.closeEnds(nc, true, true)
+					}
+				}
 			case 12: // a lot of gossip: 70 routes into the /12 of a router that is not linked yet, learned over a live peer
 				done := false
 				for i, nd := range w.nodes {
